@@ -13,7 +13,8 @@ Definition result := (list jv * option exn)%type.
 (* the environment, innermost binding first: $x is bound to a value, f to the body of a definition whose
    environment is the part of the list that starts at its own entry (so f can call itself and everything
    visible at its definition, and nothing defined later) *)
-Inductive binding := BV (w : jv) | BF (body : query).
+(* ... a filter parameter g to the argument query together with the environment of the call site *)
+Inductive binding := BV (w : jv) | BF (ps : list param) (body : query) | BP (a : query) (rho : list (N * binding)).
 Definition venv := list (N * binding).
 Fixpoint lookup_v (x : vname) (rho : venv) : option jv :=
   match rho with
@@ -21,11 +22,19 @@ Fixpoint lookup_v (x : vname) (rho : venv) : option jv :=
   | (y, BV w) :: r => if N.eqb x y then Some w else lookup_v x r
   | _ :: r => lookup_v x r
   end.
-Fixpoint lookup_f (f : fname) (rho : venv) : option (query * venv) :=
+Fixpoint lookup_f (f : fname) (argc : nat) (rho : venv) : option (binding * venv) :=
   match rho with
   | [] => None
-  | (g, BF b) :: r => if N.eqb f g then Some (b, rho) else lookup_f f r
-  | _ :: r => lookup_f f r
+  | (g, BF ps b) :: r => if N.eqb f g && Nat.eqb (length ps) argc then Some (BF ps b, rho) else lookup_f f argc r
+  | (g, BP a e) :: r => if N.eqb f g && Nat.eqb argc 0 then Some (BP a e, rho) else lookup_f f argc r
+  | _ :: r => lookup_f f argc r
+  end.
+(* the closures of the filter parameters, innermost (last) first *)
+Fixpoint pf_binds (ps : list param) (args : list query) (rho : venv) : venv :=
+  match ps, args with
+  | PF g :: ps', a :: args' => pf_binds ps' args' rho ++ [(g, BP a rho)]
+  | PV _ :: ps', _ :: args' => pf_binds ps' args' rho
+  | _, _ => []
   end.
 
 (* sequencing: r, and if r ended normally then k () *)
@@ -153,17 +162,18 @@ Fixpoint den1 (call : query -> venv -> jv -> result) (q : query) (rho : venv) (v
   | QBinop o a b =>
       (* the RIGHT operand is the outer loop (compileCallInternal evaluates the last argument first) *)
       bind (go b rho v) (fun r => bind (go a rho v) (fun l => of_sum (n_fn2 nt o v l r)))
-  | QDef f ps body rest =>
-      match ps with
-      | [] => go rest ((f, BF body) :: rho) v
-      | _ => ([], None)
-      end
+  | QDef f ps body rest => go rest ((f, BF ps body) :: rho) v
   | QCallF f args =>
-      match args with
-      | [] => match lookup_f f rho with
-              | Some (body, rho_d) => call body rho_d v
-              | None => ([], None)
-              end
+      match lookup_f f (length args) rho with
+      | Some (BF ps body, rho_d) =>
+          (* the $x parameters are evaluated in order on the input of the call, in the environment of the call *)
+          (fix bindps (ps : list param) (args : list query) (env : venv) {struct args} : result :=
+             match ps, args with
+             | PV x :: ps', a :: args' => bind (go a rho v) (fun w => bindps ps' args' ((x, BV w) :: env))
+             | PF _ :: ps', _ :: args' => bindps ps' args' env
+             | _, _ => call body env v
+             end) ps args (pf_binds ps args rho ++ rho_d)
+      | Some (BP a rho_a, _) => call a rho_a v
       | _ => ([], None)
       end
   end.
